@@ -35,6 +35,9 @@ def _fresh(st):
     return slave, SL.server_context(slave, single=True)
 
 
+QUICK_MEI = [False]
+
+
 def make_diff(kind, framing, fcs, one_read):
     lens = [body_len(fc, 1) if fc in (15, 16, 23) else (3 if fc == 43 else (4 if fc == 8 else body_len(fc, None))) for fc in fcs]
 
@@ -50,6 +53,10 @@ def make_diff(kind, framing, fcs, one_read):
             if fc == 8:
                 assume(body[0] == 0)
                 assume(body[1] != 4)              # Force Listen Only Mode: see C09's known finding on Twisted UDP
+            if fc == 43 and QUICK_MEI[0]:
+                # quick tier: MEI type 14, any read code (0 and > 4 included), object ids 0..8 (the identity is a dictionary)
+                assume(body[0] == 14)
+                assume(body[2] <= 8)
             frames.append(adu.ref_adu(framing, bytes([fc]) + body, u, t[2 * i:2 * i + 2]))
         chunks = [b"".join(frames)] if (one_read and kind == "stream") else frames
         results = []
@@ -268,7 +275,8 @@ def obligations(tier):
     from harness import kernels
     T = 300 if tier == "quick" else 1500
     out = [kernels.K1(tier), kernels.K2(tier)]
-    singles = [3, 6, 16, 5] if tier == "quick" else [1, 2, 3, 4, 5, 6, 15, 16, 22, 23, 43, 8, 7, 17]
+    singles = [3, 6, 16, 5, 43] if tier == "quick" else [1, 2, 3, 4, 5, 6, 15, 16, 22, 23, 43, 8, 7, 17]
+    QUICK_MEI[0] = (tier == "quick")
     pairs = [(6, 3), (16, 3)] if tier == "quick" else [(6, 3), (16, 3), (5, 1), (15, 1), (22, 3), (23, 3), (6, 6)]
     lenfix = {7: 0, 17: 0, 11: 0, 12: 0}
     for kind in ("stream", "dgram"):
